@@ -604,3 +604,10 @@ pub proof fn lemma_transitions_follow(s: &Schedule, v: VehicleIdx, trs1: Map<Veh
         s.transitions_follow(v, trs1, mv1, s.vehicles@, tours1),
 {
 }
+
+impl Schedule {
+    /// D11: an id for a new dummy tour is available, or none is needed (no service trip among the removed nodes)
+    pub open spec fn id_left(&self, segment: Segment, v: VehicleIdx) -> bool {
+        !has_service(&self.network, self.removed_nodes(segment, v)) || self.vehicle_counter <= 0xffff
+    }
+}
